@@ -84,7 +84,7 @@ func c08r1(c *Ctx) {
 			fnn := FuncName(st.Parent())
 			ok, why := false, ""
 			switch {
-			case fresh && r.Key == "ESDTNFTCreate" && st.Parent() == r.Entry:
+			case fresh && r.Key == "ESDTNFTCreate" && (st.Parent() == r.Entry || onlyBelow(c.P, st.Parent(), r)):
 				ok, why = true, "the created entry (bindings: R4)"
 			case fresh && (s.Name == "ESDigitalToken.Value" || s.Name == "ESDigitalToken.Type"):
 				if s.Name == "ESDigitalToken.Type" {
@@ -398,22 +398,25 @@ func c08r4(c *Ctx) {
 	}
 	got := map[string]string{}
 	var royal ssa.Value
-	for _, b := range r.Entry.Blocks {
-		for _, in := range b.Instrs {
-			st, ok := in.(*ssa.Store)
-			if !ok {
-				continue
-			}
-			fa, ok := st.Addr.(*ssa.FieldAddr)
-			if !ok {
-				continue
-			}
-			if ty, f, ok := entryOrMetaField(fa); ok && ty == "MetaData" {
-				got[f] = e.Term(st.Val)
-				if f == "Royalties" {
-					royal = st.Val
+	// the literal is built in the entry point or in a phase function below it
+	isMetaStore := func(in ssa.Instruction) (string, bool) {
+		if st, ok := in.(*ssa.Store); ok {
+			if fa, ok := st.Addr.(*ssa.FieldAddr); ok {
+				if ty, f, ok := entryOrMetaField(fa); ok && ty == "MetaData" {
+					if _, fresh := fa.X.(*ssa.Alloc); fresh {
+						return f, true
+					}
 				}
 			}
+		}
+		return "", false
+	}
+	for _, ms := range c.P.EffectSites(r.Entry, "c08meta", isMetaStore) {
+		st := ms.In.(*ssa.Store)
+		got[ms.Name] = ms.Env.Term(st.Val)
+		if ms.Name == "Royalties" {
+			royal = st.Val
+			e = ms.Env
 		}
 	}
 	var fields []string
@@ -468,4 +471,21 @@ func c08r4(c *Ctx) {
 	if n == 0 {
 		c.Anchor(rule, "the save of the created entry")
 	}
+}
+
+// onlyBelow: fn is reached from the entry point of registration r and from no other registered entry point (a phase function
+// of that built-in function).
+func onlyBelow(p *Prog, fn *ssa.Function, r Registration) bool {
+	if !p.ReachableFrom([]*ssa.Function{r.Entry})[fn] {
+		return false
+	}
+	for _, o := range p.Registrations() {
+		if o.Entry == nil || o.Entry == r.Entry {
+			continue
+		}
+		if p.ReachableFrom([]*ssa.Function{o.Entry})[fn] {
+			return false
+		}
+	}
+	return true
 }
